@@ -1,6 +1,8 @@
 """C12  At most one TCP connection or connection attempt to the peer at any time."""
 import random
 
+from vlib import budget
+
 from vlib import session as S
 from vlib.monitors import LedgerMonitor
 
@@ -22,7 +24,7 @@ CFGS = {
 }
 DEPTH = {'quick': (3, 8), 'thorough': (4, 11)}
 PARTS = {'quick': 4, 'thorough': 3}
-WALKS = {'quick': (240, 120), 'thorough': (600, 300)}
+WALKS = {'quick': (240, 120), 'thorough': (6000, 400)}
 BUDGET = {'quick': 45, 'thorough': 600}
 
 # prefix-seeded exploration (states a search from boot reaches only at depth 8+): a session under a pending boot
@@ -114,6 +116,8 @@ def run_shard(sh):
             # hostile well-framed messages (mutated unit-test corpus) among the peer's messages
             alpha = ['OPEN', 'KA', 'OPEN_h9', 'NOTI_CEASE', 'BADLEN', 'UPD1'] + S.fuzz_alphabet(rng, sh['fuzz'])
         for i in range(sh['n']):
+            if budget.expired():
+                break
             r = S.random_walk(cfg, [LedgerMonitor], alpha, rng, sh['length'], multi=True,
                               weights={'TICK': 6, 'ACCEPT': 3, 'REFUSE': 2, 'STOP': 0.7, 'START': 1.5})
             r.monitors[0].final()
@@ -124,7 +128,7 @@ def run_shard(sh):
                 viol.setdefault((v['kind'], tuple(v['features'])), v)
             if i == 0:
                 res['samples'].append(dict(retry=sh['retry'], walk=r.seq[:40]))
-        res['counters'] = dict(walks=sh['n'], connect_attempts_observed=stats['attempts'], late_accepts=stats['late'],
+        res['counters'] = dict(walks=res['evaluations'], connect_attempts_observed=stats['attempts'], late_accepts=stats['late'],
                                writes_observed=stats['writes'], fuzzed_frames_in_alphabet=sh.get('fuzz', 0))
         res['maxima'] = dict(max_simultaneous_live_connectors=stats['max_live'])
         res['violations'] = list(viol.values())
